@@ -92,13 +92,21 @@ def main():
     import tensora.compile._porcelain as P
     from tensora.compile import evaluate_cffi, evaluate_tensora
 
-    watch_dir = os.path.dirname(P.__file__)
+    # every Python line of the tensora package is a yield point (compile/, tensor.py, problem.py, ...)
+    watch_dir = os.path.dirname(os.path.dirname(P.__file__))
     sched_ref = {}
     real_lock = CC.lock
 
     def do_call(call):
         inputs = {n: C.tensor_from_stored(tuple(t["dims"]), t["fmt"], t["stored"]) for n, t in call["inputs"].items()}
-        if call.get("entry") == "method":
+        if call.get("entry") == "operator":
+            # Tensor operators with a Python number on one side (they synthesise an assignment and call evaluate)
+            import operator as O
+
+            t = inputs["t"]
+            fn = {"+": O.add, "-": O.sub, "*": O.mul}[call["op"]]
+            res = fn(t, call["scalar"]) if call["side"] == "r" else fn(call["scalar"], t)
+        elif call.get("entry") == "method":
             # a compiled tensor method obtained through tensor_method() and called directly
             from tensora import BackendCompiler, tensor_method
 
